@@ -319,6 +319,7 @@ def work_store(args):
                         f'facet {empty} returned {got}, reference {want}',
                         {'content': content, 'query': qrepr(q)},
                     )
+        front_end(ctx, content)
         if do_expr:
             for expr in all_expressions(do_expr):
                 q = qdict(expr, None, None, None, None, None)
@@ -331,6 +332,69 @@ def work_store(args):
         return out
     finally:
         w.close()
+
+
+def front_end(ctx, content):
+    '''the user-facing entry points (fe.api.facet.*, fe.api.database.search)
+    called the way DynamicContent calls them: URL-style parameters = lists of
+    comma separated strings, JSON reply'''
+    import json
+    import dawgie.fe.api.facet as facet
+    import dawgie.fe.api.database as database
+
+    names = ['runids', 'targets', 'tasks', 'algs', 'svs']
+    pos = {n: i for i, n in enumerate(names)}
+    menu = {'runids': [None, ['1:4']], 'targets': [None, ['A'], ['A, B']], 'tasks': [None, ['t']],
+            'algs': [None, ['a'], ['a,ab']], 'svs': [None, ['s'], ['sx']]}
+    fns = {'targets': facet.target, 'tasks': facet.task, 'algs': facet.alg, 'svs': facet.sv}
+
+    def split(v):
+        return None if v is None else [x.strip() for x in v[0].split(',')]
+
+    for level, fn in fns.items():
+        others = [n for n in names if n != level]
+        for combo in itertools.product(*(menu[n] for n in others)):
+            kw = dict(zip(others, combo))
+            ctx.count('fe_facet_calls')
+            try:
+                reply = json.loads(fn(**kw))
+            except Exception as e:  # noqa
+                ctx.violation(f'C17/fe-facet-raises/{level}/{type(e).__name__}', f'facet.{fn.__name__}({kw}) raised {e!r}',
+                              {'content': content, 'endpoint': level, 'params': kw})
+                continue
+            q = {n: (kw[n][0] if n == 'runids' and kw.get(n) else split(kw.get(n))) for n in names}
+            q[level] = None
+            q['vals'] = None
+            want = sorted({str(k[pos[level]]) for k in ref_find(content, q)})
+            if reply.get('content') != want:
+                given = '+'.join(sorted(n for n in others if kw[n] is not None)) or 'nothing'
+                ctx.violation(f'C17/fe-facet/{level}/given-{given}',
+                              f'facet.{fn.__name__}({kw}) answered {reply.get("content")}, reference {want}',
+                              {'content': content, 'endpoint': level, 'params': kw})
+    for combo in itertools.product(*(menu[n] for n in names)):
+        kw = dict(zip(names, combo))
+        for index, limit in ((None, None), (['1'], ['2'])):
+            ctx.count('fe_search_calls')
+            try:
+                reply = json.loads(database.search(index=index, limit=limit, **kw))['content']
+            except Exception as e:  # noqa
+                ctx.violation(f'C17/fe-search-raises/{type(e).__name__}', f'database.search({kw}) raised {e!r}',
+                              {'content': content, 'params': kw})
+                continue
+            q = {n: (kw[n][0] if n == 'runids' and kw.get(n) else split(kw.get(n))) for n in names}
+            q['vals'] = None
+            full = [as_item(k) for k in sorted(ref_find(content, q), key=lambda k: (k[0],) + tuple(map(str, k[1:])))]
+            i = int(index[0]) if index else 0
+            exp = full[i:i + int(limit[0])] if limit else full[i:]
+            if sorted(reply.get('items', [])) != sorted(exp) and not limit:
+                ctx.violation('C17/fe-search/items', f'database.search({kw}) items {reply.get("items")}, reference {exp}',
+                              {'content': content, 'params': kw})
+            if reply.get('total') != len(full):
+                ctx.violation('C17/fe-search/total', f'database.search({kw}) total {reply.get("total")}, reference {len(full)}',
+                              {'content': content, 'params': kw})
+            if limit and len(reply.get('items', [])) != len(exp):
+                ctx.violation('C17/fe-search/page-size', f'database.search({kw}, index=1, limit=2) returned '
+                              f'{len(reply.get("items", []))} items, reference {len(exp)}', {'content': content, 'params': kw})
 
 
 def work_scrub(args):
@@ -397,7 +461,7 @@ def run(ctx):
         ctx.merge(r)
         distinct.update(tuple(d) for d in r['distinct'])
     evals = sum(ctx.counters.get(k, 0) for k in
-                ('find_calls', 'facet_calls', 'scrub_exprs'))
+                ('find_calls', 'facet_calls', 'scrub_exprs', 'fe_facet_calls', 'fe_search_calls'))
     ctx.assumptions += [
         'shelve back end only (no PostgreSQL server in the sandbox)',
         'a range a:b denotes a <= r < b, as dawgie.db.basis.Range.__contains__ defines it',
@@ -408,7 +472,9 @@ def run(ctx):
         'evaluations': evals,
         'distinct_nontrivial': len(nontrivial) + len(distinct),
         'rule': 'every subset of the 8-key universe (256 stores) x every '
-                'constraint combination of the menus x pages x facets; every '
+                'constraint combination of the menus x pages x facets; on every store the front-end entry points '
+                '(fe.api.facet.target/task/alg/sv and fe.api.database.search, URL-style parameters, JSON reply) for '
+                'every combination of a parameter menu; every '
                 f'run-id expression of <= {maxterms} terms. distinct_nontrivial = '
                 'number of distinct non-empty result lists returned by find() '
                 'plus distinct run-id sets denoted by the expressions',
